@@ -408,6 +408,10 @@ class PGPSignature(Armorable, ParentRef, PGPObject):
         data, and then using the resulting hash in the signature algorithm.
         """
 
+        if self.type in {SignatureType.Standalone, SignatureType.Timestamp} and subject is not None:
+            # these sign only their own subpackets; treating them as valid for a subject would accept any subject
+            raise PGPError("A standalone or timestamp signature does not sign a subject")
+
         if self.type == SignatureType.BinaryDocument:
             """
             For binary document signatures (type 0x00), the document data is
